@@ -43,6 +43,7 @@ ASSUMPTIONS = [
 DEPTH = {'quick': 3, 'thorough': 4}
 _p = None
 keep = []
+keep_cfg = {}
 _last = {}
 
 
@@ -163,6 +164,9 @@ def ev_keep_objects():
     keep.append(_p.Tract.from_twprgesec('NE/4', 154, 97, 14, parse_qq=True))
     keep.append(_p.TRS.from_twprgesec(1, 2, 3))
     keep.append(_p.PLSSDesc('T154-R97 Sec 14: NE/4'))
+    keep_cfg[id(keep[-1])] = ''
+    keep.append(_p.PLSSDesc('T154-R97 Sec 1: N/2 of Lot 1, Lot 2, NE', config='suppress_lot_divs,clean_qq', wait_to_parse=True))
+    keep_cfg[id(keep[-1])] = 'suppress_lot_divs,clean_qq'       # what the caller configured, remembered by the caller
 
 
 def ev_sort_kept():
@@ -208,6 +212,7 @@ def reset():
     TRS._USE_CACHE = True
     TRS._clear_cache()
     keep.clear()
+    keep_cfg.clear()
     _last.clear()
     from .. import c15_probe
     c15_probe.SHARED.clear()
@@ -257,10 +262,11 @@ def kept_check():
     object with the same text and the same settings gives under the process state of *now*.  -> (got, want) of the first mismatch"""
     for k in list(keep):
         if isinstance(k, _p.PLSSDesc):
-            k.parse()
-            got = [(t.trs, t.desc) for t in k.tracts]
-            f = _p.PLSSDesc(k.orig_desc, config=k.config.decompile_to_text() or None)
-            want = [(t.trs, t.desc) for t in f.tracts]
+            cfg = keep_cfg.get(id(k), '')
+            k.parse(parse_qq=True)
+            got = [(t.trs, t.desc, t.lots, t.qqs) for t in k.tracts]
+            f = _p.PLSSDesc(k.orig_desc, config=cfg or None, parse_qq=True)
+            want = [(t.trs, t.desc, t.lots, t.qqs) for t in f.tracts]
             if got != want or k.pp_desc != f.pp_desc:
                 return [got, k.pp_desc], [want, f.pp_desc]
     return None
